@@ -122,6 +122,31 @@ func init() {
 				if r.cc != nil {
 					made = append(made, r)
 				}
+				if p["redial"] == "1" && r.cc != nil {
+					// a second connection to the same id while its listener is serving (what gRPC does by itself
+					// when it reconnects): it must reach the same server and disturb nobody
+					rd := make(chan struct{})
+					x.Go(ddom, func() {
+						defer close(rd)
+						cc, err := db.Dial(id)
+						if err != nil {
+							x.Data[fmt.Sprintf("derr%d", id)] = fmt.Sprintf("second Dial: %v", err)
+							return
+						}
+						x.OnCleanup(func() { cc.Close() })
+						ctx, cancel := context.WithTimeout(context.Background(), 20*time.Second)
+						defer cancel()
+						got, err := pingTag(ctx, cc)
+						x.Obs("redial%d err=%v tag=%s", id, err != nil, got)
+						if err != nil {
+							x.Data[fmt.Sprintf("derr%d", id)] = fmt.Sprintf("first RPC on the second connection: %v", err)
+						} else if got != tag {
+							x.Fail("S", "misrouted: second connection dialled for id %d was answered by %q%s", id, got, raceNote(x))
+						}
+						cc.Close()
+					})
+					<-rd
+				}
 				pingAll(fmt.Sprintf("after establishment %d (%s)", i+1, e))
 			}
 			x.Data["completed"] = true
@@ -195,6 +220,11 @@ func init() {
 						out = append(out, explore.Params{"seq": a + "," + b})
 					}
 				}
+			case "redial":
+				for _, a := range []string{"pA0", "pD0", "hA0", "hD0", "pA1000", "hD1000"} {
+					out = append(out, explore.Params{"seq": a, "redial": "1"})
+				}
+				out = append(out, explore.Params{"seq": "pA0,hA0", "redial": "1"}, explore.Params{"seq": "hD0,pD0", "redial": "1"})
 			case "traffic-single":
 				for _, a := range one {
 					out = append(out, explore.Params{"seq": a, "traffic": "1"})
